@@ -499,6 +499,11 @@ func genUniqRuleNames(a, b []*nsxRule) {
 	for _, ru := range a {
 		aIds[ru.Id] = true
 	}
+	// New name must not clash with other rule of b.
+	bIds := make(map[string]bool)
+	for _, ru := range b {
+		bIds[ru.Id] = true
+	}
 	for _, ru := range b {
 		id := ru.Id
 		if !aIds[id] {
@@ -506,8 +511,9 @@ func genUniqRuleNames(a, b []*nsxRule) {
 		}
 		for i := 1; ; i++ {
 			newId := fmt.Sprintf("%s-%d", id, i)
-			if !aIds[newId] {
+			if !aIds[newId] && !bIds[newId] {
 				ru.Id = newId
+				bIds[newId] = true
 				break
 			}
 		}
@@ -516,6 +522,11 @@ func genUniqRuleNames(a, b []*nsxRule) {
 
 // Rename groups in b such that names are unique in respect to groups in a.
 func genUniqGroupNames(a map[string]*nsxGroup, b []*nsxGroup) {
+	// New name must not clash with other group of b.
+	bIds := make(map[string]bool)
+	for _, g := range b {
+		bIds[g.Id] = true
+	}
 	for _, g := range b {
 		id := g.Id
 		if a[id] == nil {
@@ -523,8 +534,9 @@ func genUniqGroupNames(a map[string]*nsxGroup, b []*nsxGroup) {
 		}
 		for i := 1; ; i++ {
 			newId := fmt.Sprintf("%s-%d", id, i)
-			if a[newId] == nil {
+			if a[newId] == nil && !bIds[newId] {
 				g.Id = newId
+				bIds[newId] = true
 				break
 			}
 		}
